@@ -169,6 +169,6 @@ CLAIM = dict(
     text="For all inputs, CBMC discharges its undefined-behaviour properties on the real runtime macros and on the C generated for every integer and float opcode and for the "
          "control-flow shapes, in the same runs that prove their functional contracts (an uninitialised local or a missing guard changes a proved value or raises a UB property). "
          "Compiler acceptance and cross-compiler/-O agreement are supporting facts measured on the generated probes.",
-    note="Assumes compilers are correct on well-defined C; program shapes enumerated; conversions check of CBMC is not used (known false alarm at exactly -2^31).",
+    note="Assumes compilers are correct on well-defined C; program shapes enumerated; CBMC's conversion check is used on the TRUNC macros only, restricted to float->integer casts and with the exactly representable signed minimum excluded (known false alarm there). Alignment and effective-type (aliasing) rules are outside CBMC: covered only by the bounded compiler/sanitizer matrix (memory module with odd addresses and type-punned store/load pairs).",
     technique="CBMC undefined-behaviour obligations on runtime macros and w2c2-generated C, all inputs; compiler matrix as supporting static facts",
 )
